@@ -55,6 +55,8 @@ def run(ck, facts):
     ck.rule("R4", "disable is honoured: disabled methods are skipped during lowering; every backend loop over types/traits tests `disable` before generating")
     ck.rule("R5", "the proc macro never consults backend-conditional attributes (the Rust library exports the function regardless)")
     ck.rule("R6", "inheritance: disable inherits everywhere except to variants; every type lowerer takes the type-parent attrs, every method list the method-parent attrs")
+    ck.rule("R8", "inherited attribute lists only grow on the way down (no retain/remove/filter on ast::Attrs in core::ast: an item's own attribute never hides the same-named attribute of its "
+                  "parent, whose condition may differ); a backend answers only to its own name, except the triaged extra names (demo_gen also answers to `js`)")
     ck.rule("R7", "attribute evaluation of one item is independent of its siblings: inherited-attribute accumulators (ast::Attrs) and the `auto` flag are "
                   "re-created per item (never loop-carried), and nothing happens for a method before its `disable` test except attribute evaluation")
     ck.not_decided += ["byte-identity of other backends' output (behaviour; follows from R1-R4 and C14)"]
@@ -442,3 +444,36 @@ def run(ck, facts):
         ck.expect(not offenders, "R7", "lower_all_methods/nothing-before-disable", "only attribute evaluation precedes the disable test",
                   "state is changed for a method before its `disable` test (%s): a method disabled for this backend still influences the output "
                   "(e.g. occupies the single-constructor slot or raises errors)" % sorted(set(offenders)), C.loc(lam, n.get("ln")))
+
+
+    # ---------------- R8 inherited attribute lists are append-only; extra backend names are triaged
+    REMOVERS = {"retain", "retain_mut", "remove", "swap_remove", "drain", "truncate", "clear", "pop", "dedup", "dedup_by", "dedup_by_key", "split_off", "filter", "filter_map", "skip", "take", "skip_while", "take_while"}
+    n8 = 0
+    for f in core.fn_list:
+        if "hir" not in f or not f["path"].startswith("diplomat_core::ast::") or f.get("dk") == "Closure":
+            continue
+        for n in C.walk(C.fn_body(f)):
+            if n.get("k") != "mcall" or n.get("m") not in REMOVERS:
+                continue
+            # receiver chain mentions the `attrs` list of an ast::Attrs (field access whose base type is ast::attrs::Attrs)
+            hit = [y for y in C.walk(n["recv"]) if y.get("k") == "field" and y.get("n") == "attrs" and (y.get("bty") or "").replace("&", "").replace("mut ", "").strip().endswith("ast::attrs::Attrs")]
+            if hit:
+                n8 += 1
+                ck.bad("R8", "%s/%s-on-attrs" % (C.norm_path(f["path"]).split("::", 1)[1], n["m"]),
+                       "`%s` is applied to the attribute list of an ast::Attrs: inherited #[diplomat::attr] entries are dropped or filtered on the way to an item, so a condition placed on the parent (e.g. "
+                       "`attr(cpp, disable)` on the impl block) stops applying when the item carries an attribute of the same name" % n["m"], C.loc(f, n.get("ln")))
+    ck.ok("R8", "core::ast/attrs-append-only", "no removal/filter on ast::Attrs.attrs in core::ast (%d violations)" % n8)
+    # positive control: the append API exists and is the only mutation used by the AST constructors
+    adders = sum(1 for f in core.fn_list if "hir" in f and f["path"].startswith("diplomat_core::ast::") for n in C.walk(C.fn_body(f)) if n.get("k") == "mcall" and n.get("m") in ("add_attrs", "add_attr"))
+    ck.expect(adders >= 5, "R8", "core::ast/add_attrs-sites", "%d add_attrs sites" % adders, "only %d add_attrs/add_attr call sites found in core::ast (anchor lost)" % adders)
+    extra = {}
+    for n in C.walk(C.fn_body(gen)):
+        if n.get("k") == "match":
+            for arm in n["arms"]:
+                tg = [arm["pat"].get("v")] + [a_.get("v") for a_ in (arm["pat"].get("alts") or [])] if arm["pat"].get("k") in ("lit", "or") else []
+                tg = [t_ for t_ in tg if isinstance(t_, str)]
+                for x in C.walk_inl(tool, arm["b"], 1, exclude=[gen["path"]]):
+                    if x.get("k") == "assign" and any(y.get("k") == "field" and y.get("n") == "other_backend_names" for y in C.walk(list(C.children(x))[0])):
+                        extra[tuple(sorted(tg))] = sorted(set(C.str_lits(list(C.children(x))[1])))
+    ck.expect(extra == {("demo_gen",): ["js"]}, "R8", "gen/other_backend_names", str(extra),
+              "extra backend names are %s (triaged: demo_gen also answers to `js`): conditions written for one backend now also select another backend's output" % extra, C.loc(gen))
